@@ -23,13 +23,38 @@ _MOD = None
 _SCRATCH = None
 
 
+_SLOT = [0]
+
+
 def _init_worker(modname, scratch_root):
+    """Per-worker set-up.  Scratch directories are handed out from a small set of FIXED paths per worker
+    (`<scratch>/w<pid>/slot<k>`, k restarting at 0 for every case), so that consecutive cases of one worker build
+    their packages, data files and outputs at the very same paths with different contents: anything the
+    implementation remembers by path (a cached models.conf, parameter table, convolved-flux file, SED …) then meets a
+    regenerated file — for every property, without each harness having to arrange it.  (VERIF_UNIQUE_TMP=1 turns it off.)"""
     global _MOD, _SCRATCH
     os.environ['TMPDIR'] = scratch_root
     import tempfile
     tempfile.tempdir = scratch_root
     _MOD = importlib.import_module(modname)
     _SCRATCH = scratch_root
+    if os.environ.get('VERIF_UNIQUE_TMP') != '1' and not getattr(tempfile, '_verif_patched', False):
+        real_mkdtemp = tempfile.mkdtemp
+        base = os.path.join(scratch_root, 'w%d' % os.getpid())
+
+        def mkdtemp(suffix=None, prefix=None, dir=None):
+            if dir is not None and not str(dir).startswith(scratch_root):
+                return real_mkdtemp(suffix, prefix, dir)
+            k = _SLOT[0]
+            _SLOT[0] += 1
+            path = os.path.join(base, 'slot%d' % k)
+            if os.path.exists(path):
+                # still in use within this case (or left behind): fall back to a fresh unique directory
+                return real_mkdtemp(suffix, prefix, dir)
+            os.makedirs(path)
+            return path
+        tempfile.mkdtemp = mkdtemp
+        tempfile._verif_patched = True
 
 
 class CaseTimeout(BaseException):
@@ -66,6 +91,7 @@ def _run_one(args):
 
 
 def _run_one_inner(case):
+    _SLOT[0] = 0
     try:
         mod = importlib.import_module(case['_mod']) if isinstance(case, dict) and '_mod' in case else _MOD
         r = mod.run_case(case)
